@@ -20,7 +20,7 @@ STRS = ['"s"', '""', '"a b"', '"\\""', '"a\\\\"']
 PUNCTS = [".", "..", ",", "{", "}", "(", ")", "[", "]", "+", "-", "*", "/", "%%", "%", "==", "!=", "~", "!~",
           ">=", "<=", ">", "<", "=>", "=", ";", "::", ":", "&&", "||", "|"]
 VOCAB = KEYWORDS + IDENTS + NUMS + STRS + PUNCTS
-SEPS = ["", " ", "\t", "\n", "\r\n", "//c\n", " // c\n"]
+SEPS = ["", " ", "\t", "\n", "\r\n", "//c\n", " // c\n", "//c\r\n", " // c\r\n"]
 
 STR_ALPHA = ["a", "\\", '"', "n", "t", "r", "@", "é", "😀", "\n", " "]
 
@@ -59,7 +59,7 @@ CANON = [
     'let rx = a ~ b !~ c ;',
     'let g = ( 1 + 2 ) * 3 ;',
 ]
-GAP_SEPS = ["", " ", "\t", "\n", "\r\n", "\n    ", "// c\n", " // c\n", "//\n"]
+GAP_SEPS = ["", " ", "\t", "\n", "\r\n", "\n    ", "// c\n", " // c\n", "//\n", "// c\r\n", "//\r\n"]
 
 
 def tok_view(ref_toks):
